@@ -752,13 +752,38 @@ def c11_pull(ctx):
     F = ctx.facts
     S = ctx.slots
     n = 0
+    def implies_one(pc, cs):
+        return any(pt == cs and f == ('eq', 1) for pt, f in pc) or \
+            any(pt in (('bin', 'Eq', cs, ('const', 1)), ('bin', 'Eq', ('const', 1), cs)) and lin.fact_truth(f) is True for pt, f in pc) or \
+            any(pt in (('bin', 'Ne', cs, ('const', 1)), ('bin', 'Ne', ('const', 1), cs)) and lin.fact_truth(f) is False for pt, f in pc)
+
+    def chunk_context(tn, depth=0):
+        """(chunk-size term inside task tn or None, is chunk_size == 1 known for every execution of tn)"""
+        b = F.bodies[tn]
+        if tn in S.task_parent and depth < 3:
+            disp, dbb = S.task_parent[tn]
+            dcs, done = chunk_context(disp, depth + 1)
+            dr = ctx.run(disp)
+            c = dr.calls.get(dbb) if dbb is not None else None
+            if c is None or dcs is None:
+                return None, False
+            one = done or implies_one(c['pc'], dcs)
+            cs = None
+            for i, a in enumerate(c['args']):
+                if a == dcs and i < len(b.arg_locals()):
+                    cs = P(b.local_name(b.arg_locals()[i]) or '_%d' % b.arg_locals()[i])
+            return cs, one
+        pl = task_chunk_param(b)
+        return (P(b.local_name(pl)) if pl is not None else None), False
+
     for tn in sorted(S.tasks):
         b = F.bodies[tn]
-        pl = task_chunk_param(b)
-        if pl is None:
+        cs, one_ctx = chunk_context(tn)
+        if cs is None and not one_ctx:
             out.fail('C11-PULL/%s' % key_of(b), 'task has no chunk size parameter', b.where(), kind='undecided')
             continue
-        cs = P(b.local_name(pl))
+        if cs is None:
+            cs = P('$no-chunk-parameter')     # only element-wise pulls are acceptable in this task
         r = ctx.run(tn)
         from .rules_tasks import resolve_in_scope
         for cb in F.closures_in(b):
@@ -787,8 +812,7 @@ def c11_pull(ctx):
                     if not ok:
                         out.fail(key, '%s pulls (inside a closure) with size %s instead of its chunk_size parameter' % (key_of(b), t_str(size)[:120]), cb.where(c['line']))
                 elif is_coniter_call(t, PULL_ELEMENT) and creator is not None and creator.name == b.name:
-                    one = any(pt == cs and f == ('eq', 1) for pt, f in cpc) or \
-                        any(pt in (('bin', 'Eq', cs, ('const', 1)), ('bin', 'Eq', ('const', 1), cs)) and lin.fact_truth(f) is True for pt, f in cpc)
+                    one = one_ctx or implies_one(cpc, cs)
                     out.inst(key, one, 'element-wise pull in a closure created under chunk_size == 1' if one else 'element-wise pull in a closure not guarded by chunk_size == 1')
                     if not one:
                         out.fail(key, '%s pulls element-wise (%s, inside a closure) on a path where chunk_size may differ from 1' % (key_of(b), method(t)), cb.where(c['line']))
@@ -807,9 +831,7 @@ def c11_pull(ctx):
             elif is_coniter_call(t, PULL_ELEMENT):
                 n += 1
                 key = 'C11-PULL/%s/%s' % (key_of(b), method(t))
-                one = any(pt == cs and f == ('eq', 1) for pt, f in c['pc']) or \
-                    any(pt in (('bin', 'Eq', cs, ('const', 1)), ('bin', 'Eq', ('const', 1), cs)) and lin.fact_truth(f) is True for pt, f in c['pc']) or \
-                    any(pt in (('bin', 'Ne', cs, ('const', 1)), ('bin', 'Ne', ('const', 1), cs)) and lin.fact_truth(f) is False for pt, f in c['pc'])
+                one = one_ctx or implies_one(c['pc'], cs)
                 out.inst(key, one, 'element-wise pull under chunk_size == 1' if one else 'element-wise pull not guarded by chunk_size == 1',
                          sample={'task': key_of(b), 'pull': method(t), 'guard': 'chunk_size == 1' if one else None})
                 if not one:
@@ -1136,6 +1158,14 @@ def operator_selection(ctx, op, mode, user=None):
         return None, 'operator closure does not take two arguments'
     x, y = P(cb.local_name(2) or '_2'), P(cb.local_name(3) or '_3')
     r0 = ctx.run(op[1])
+    # `|a, b| a.min(b)` / `|a, b| Ord::max(b, a)`: the std selection functions applied to the two arguments
+    if mode == 'natural' and r0.ret is not None and r0.ret[0] == 'call' and sg(r0.ret[1]) in STD_SELECT and len(r0.ret[2]) == 2:
+        std = STD_SELECT[sg(r0.ret[1])]
+        if tuple(r0.ret[2]) == (x, y):
+            return dict(std), 'closure calling std %s(x, y)' % sg(r0.ret[1]).split('::')[-1]
+        if tuple(r0.ret[2]) == (y, x):
+            swap = {'x': 'y', 'y': 'x'}
+            return {o: swap[std[FLIP[o]]] for o in ('Less', 'Equal', 'Greater')}, 'closure calling std %s(y, x)' % sg(r0.ret[1]).split('::')[-1]
     cap = None
     if user is not None:
         if user not in op[2]:
@@ -1521,16 +1551,10 @@ def is_some_switches(ctx, b, r):
     for sbb, (d, tg) in r.switches.items():
         k, inner = norm_bool(d)
         if k == 'id' and d[0] == 'discr' and _is_search_result(d[1]):
-            # `if let Some(x) = result` / `match result { Some(..) => .., None => .. }`
-            t = b.blocks[sbb]['term']
-            one = zero = None
-            for v, tgt in t['arms']:
-                if int(v) == 0:
-                    zero = tgt
-                if int(v) == 1:
-                    one = tgt
-            one = one if one is not None else t['otherwise']
-            zero = zero if zero is not None else t['otherwise']
+            # `if let Some(x) = result` / `match result { Some(..) => .., None => .. }` / `result?` (the analysis records the
+            # effective arms in terms of the Option's discriminant, also for the flipped ControlFlow switch of `?`)
+            one = r.switch_target(sbb, 1)
+            zero = r.switch_target(sbb, 0)
             outl.append((sbb, one, zero, d[1]))
             continue
         if k in ('is_some', 'is_none'):
